@@ -29,6 +29,7 @@ class Run:
         self.violations = []   # list of dict(signature, detail, replay)
         self.known = []
         self.notes = []
+        self.selftests = []    # binding self-tests run after each trace validation (lib/selftest.py)
 
     def say(self, *a):
         msg = " ".join(str(x) for x in a)
@@ -113,7 +114,7 @@ class Run:
 
     # ------------------------------------------------------------------ TLC
     def tlc(self, module, cfg, workers=1, timeout=900, simulate=None, depth=None, extra=(),
-            files=None, coverage=False, heap=None, allow_fail=False, cfg_subst=None):
+            files=None, coverage=False, heap=None, allow_fail=False, cfg_subst=None, selftest=True, cache=False):
         """Run TLC on spec/<module>.tla with spec/cfg/<cfg>.cfg in a scratch copy of the spec dir.
         files: dict name -> content (or path) dropped next to the spec (trace.ndjson, cases.ndjson).
         Returns dict(out, states, distinct, depth, ok, emitted[list of (tag, json)])."""
@@ -149,7 +150,24 @@ class Run:
             jopts += " -Xmx%s" % heap
         env["JAVA_TOOL_OPTIONS"] = (env.get("JAVA_TOOL_OPTIONS", "") + " " + jopts).strip()
         t = time.time()
-        p = subprocess.run(cmd, cwd=d, env=env, stdout=subprocess.PIPE, stderr=subprocess.STDOUT, text=True)
+        ckey = None
+        if cache and not files and not simulate:
+            # pure case generation (no input from /repo, no seed): its output is a function of the specification
+            h = hashlib.sha256()
+            for f in sorted(os.listdir(d)):
+                if f.endswith(".tla") or f.endswith(".cfg"):
+                    h.update(f.encode()); h.update(open(os.path.join(d, f), "rb").read())
+            h.update(" ".join(str(x) for x in extra).encode())
+            ckey = os.path.join(VERIF, ".cache", "%s-%s-%s.out" % (module, cfg, h.hexdigest()[:20]))
+        if ckey and os.path.exists(ckey):
+            class _P: pass
+            p = _P(); p.stdout = open(ckey).read(); p.returncode = 0
+        else:
+            p = subprocess.run(cmd, cwd=d, env=env, stdout=subprocess.PIPE, stderr=subprocess.STDOUT, text=True)
+            if ckey and p.returncode == 0 and "No error has been found" in p.stdout:
+                os.makedirs(os.path.dirname(ckey), exist_ok=True)
+                tmp = ckey + ".%d" % os.getpid()
+                open(tmp, "w").write(p.stdout); os.replace(tmp, ckey)
         out = p.stdout
         open(os.path.join(d, "tlc.out"), "w").write(out)
         self.log.write("$ %s [%s] rc=%d %.1fs\n" % (" ".join(cmd), d, p.returncode, time.time() - t))
@@ -168,6 +186,15 @@ class Run:
         res["emitted"] = parse_emitted(out)
         if coverage:
             res["cov_zero"] = re.findall(r"^\s*<(\w+) line (\d+).*>: 0:0$", out, re.M)
+        tp = (files or {}).get("trace.ndjson")
+        if selftest and module.startswith("Trace") and isinstance(tp, str) and os.path.exists(tp) and not simulate:
+            # binding self-test (lib/selftest.py): only meaningful when the real trace was consumed entirely
+            nlines = sum(1 for l in open(tp) if l.strip())
+            if res["depth"] == nlines + 1:
+                import selftest as st
+                rejected = {e["line"] for t, e in res["emitted"] if t == "REJECT"}
+                self.selftests += st.binding_selftest(self, module, cfg, tp, rejected,
+                                                      dict(workers=workers, timeout=timeout, extra=extra, cfg_subst=cfg_subst, heap=heap))
         return res
 
 
@@ -243,6 +270,7 @@ def finish(run, level, coverage, assumptions, replay_dir_name="replay"):
             if v.get("detail"):
                 print("  detail: %s" % str(v["detail"])[:600], flush=True)
     coverage = dict(coverage)
+    coverage["binding_selftest"] = run.selftests
     coverage["known_findings_seen"] = sorted(seen_known)
     coverage["known_findings_listed_not_seen"] = sorted(set(known_sigs) - set(seen_known))
     ev = dict(property_id=run.pid, tier=run.tier, seed=run.seed, level=level, coverage=coverage,
